@@ -89,11 +89,11 @@ def compare(code, scfg, report):
     """Compare the library's graph with the reference.  report(clause, detail)."""
     from numba_scfg.core.datastructures.basic_block import PythonBytecodeBlock
     ins, succ, leader = reference(code)
-    blocks = sorted(scfg.graph.values(), key=lambda b: b.begin)
-    for b in blocks:
+    for b in scfg.graph.values():
         if not isinstance(b, PythonBytecodeBlock):
-            report("block-type", f"block {b.name} is a {type(b).__name__}")
+            report("block-type", f"block {b.name} is a {type(b).__name__}, not a bytecode block")
             return
+    blocks = sorted(scfg.graph.values(), key=lambda b: b.begin)
     if not blocks:
         report("no-blocks", "the graph is empty")
         return
